@@ -1,5 +1,6 @@
 import Kdf.Model.Sys
 import Kdf.Model.RCache
+import Kdf.Model.SysMsg
 /-! Line protocol for stream `sys` (C09).  See harness/s_sys.c for the twin.
 
 ```
@@ -240,6 +241,13 @@ partial def loop (h : IO.FS.Stream) (s : St) : IO Unit := do
     loop h { s with sys := { s.sys with maps := s.sys.maps.set idx.toNat! (some m) } }
   | ["op", _, _, _, _] | ["conv", _, _, _] =>
     if !s.reent.isEmpty then IO.println s!"> {ws.headD ""} ?" else IO.println (opLine s ws)
+    loop h { s with cache := none }
+  | ["econv", tas, as, addr] =>
+    -- C16: `conv` plus what the call leaves in the error string (Kdf.Model.SysMsg)
+    if !s.reent.isEmpty then IO.println "> econv ?" else
+      (match Kdf.Model.SysMsg.convM (cfgOf s) (asOf tas) ⟨addr.toNat!, asOf as⟩ with
+       | some (st, fa, m) => IO.println s!"> econv {showStatus st} {showAs fa.as} {fa.addr} {if m then "set" else "empty"}"
+       | none => IO.println "> econv OOB")
     loop h { s with cache := none }
   | ["chains"] => IO.println ("> chains " ++ showChains); loop h s
   | _ => IO.println "> bad-op"; loop h s
